@@ -230,6 +230,22 @@ pub fn adversarial(rng: &mut Rng, n: usize) -> String {
     }
 }
 
+/// runs of one significant character whose length sits on an 8- or 16-bit counter boundary
+pub fn counter_boundary(rng: &mut Rng) -> String {
+    let wide = rng.chance(1, 8);
+    let len = if wide { *rng.pick(&[65535usize, 65536, 65537]) } else { *rng.pick(&[254usize, 255, 256, 257, 258, 511, 512, 513, 768, 1024]) };
+    let ch = if wide { *rng.pick(&["#", "`", "~", "-", "=", "1", " "]) } else { *rng.pick(&["#", "`", "~", "-", "=", "1", " ", "*", "_", ">", "+", "\t", "[", "!", "<", "&", "\\", "\n", "é"]) };
+    let pre = *rng.pick(&["", "", "a\n", "> ", "- ", "a ", "   "]);
+    let post = *rng.pick(&["", " a", "\na", "a", ". a", "\n", " a\n\nb"]);
+    let run = ch.repeat(len);
+    match rng.below(4) {
+        // opener and closer of the same boundary length
+        0 => format!("{pre}{run}{post}{run}"),
+        1 => format!("{pre}{run}\nx\n{run}\n"),
+        _ => format!("{pre}{run}{post}"),
+    }
+}
+
 /// uniform bytes filtered to valid UTF-8
 pub fn malformed(rng: &mut Rng) -> String {
     let n = rng.range(0, 40);
@@ -250,7 +266,7 @@ fn any_doc0(rng: &mut Rng) -> String {
         8..=10 => { let s = rng.pick(&SPEC).clone(); s }
         11..=14 => { let s = rng.pick(&SPEC).clone(); mutate(rng, &s) }
         15 => { let s = rng.pick(&SPEC).clone(); wrap_container(rng, &s) }
-        16 => { let n = if rng.chance(1, 4) { rng.range(60, 160) } else { rng.range(1, 12) }; adversarial(rng, n) }
+        16 => if rng.chance(1, 6) { counter_boundary(rng) } else { let n = if rng.chance(1, 4) { rng.range(60, 160) } else { rng.range(1, 12) }; adversarial(rng, n) }
         17 => malformed(rng),
         18 => sig_string(rng, 30),
         _ => { let d = grammar_doc(rng); mutate(rng, &d) }
